@@ -9,6 +9,7 @@ import (
 	"encoding/json"
 	"fmt"
 	"io"
+	"net/http"
 	"net/http/httptest"
 	"strings"
 	"testing"
@@ -39,7 +40,7 @@ func TestMain(m *testing.M) { evid.Main(m, "C03", rule, assumptions) }
 // "n" Next, "r" Next under recover, "c" cancel, "d" install a derived request
 // context and cancel that, "t" install a request context whose deadline has
 // passed, "l" install a live derived context, "f" install a fresh live context,
-// "p" panic.
+// "p" panic, "m" re-register http.ResponseWriter with a wrapping flamego.ResponseWriter.
 // Ret: "" none, "str", "empty", "nilerr", "err".
 type H struct {
 	Ops []string `json:"ops"`
@@ -299,6 +300,12 @@ func real(c Case) (res result) {
 					// a fresh, live context replaces whatever was there (also a
 					// cancelled one): the request context is not cancelled any more
 					ctx.Request().Request = ctx.Request().WithContext(gocontext.Background())
+				case op == "m":
+					// the handler re-registers http.ResponseWriter: handlers that ask for
+					// it by type get a wrapper (itself a flamego.ResponseWriter) around
+					// the request's writer; "a response has been written" is still the
+					// state of the request's response, whoever wrote it
+					ctx.MapTo(flamego.NewResponseWriter(ctx.Request().Method, ctx.ResponseWriter()), (*http.ResponseWriter)(nil))
 				case op == "t":
 					// the request context the handler installs has a deadline that
 					// has passed: it is done, just as a cancelled one
@@ -626,7 +633,7 @@ func genH(t *rapid.T) H {
 		case k < 17:
 			h.Ops = append(h.Ops, "c")
 		case k < 18:
-			h.Ops = append(h.Ops, []string{"d", "d", "t", "l", "l"}[rapid.IntRange(0, 4).Draw(t, "dk")])
+			h.Ops = append(h.Ops, []string{"d", "d", "t", "l", "l", "m", "m"}[rapid.IntRange(0, 6).Draw(t, "dk")])
 		default:
 			// (panics are rare: everything behind the first one is only compared
 			// up to the point where it is recovered)
